@@ -12,6 +12,8 @@ from pycoin.key.Key import InvalidPublicPairError, InvalidSecretExponentError
 from pycoin.networks.registry import network_codes, network_for_netcode
 from pycoin.satoshi import der
 
+from gen import subproc
+
 PROPERTY = "C10"
 CURVE = refec.SECP256K1
 P, N = SECP_P, SECP_N
@@ -719,6 +721,15 @@ SUBCHECKS = [
              rule="valid encodings with 0-2 byte edits / insertions / deletions, appended junk, cuts, bumped sequence length, and raw "
                   "strings 0..70 bytes: strict decode must refuse whenever a lenient TLV walk finds trailing bytes (after the sequence or "
                   "after s inside it); what else strict mode lets through is histogrammed only"),
+    SubCheck("sec_roundtrip_pure_python", subproc.pure_python_variant("checks.c10_keyenc", "o_sec_roundtrip"), strategy=s_sec_roundtrip,
+             budget=(160, 6000),
+             rule="the sec_roundtrip cases in a child interpreter started with PYCOIN_NATIVE=none (pure-Python point arithmetic, asserted)"),
+    SubCheck("sec_strict_pure_python", subproc.pure_python_variant("checks.c10_keyenc", "o_sec_strict"), strategy=s_sec_blobs,
+             budget=(320, 12000), nontrivial=nt_sec_strict,
+             rule="the sec_strict cases in the same PYCOIN_NATIVE=none child"),
+    SubCheck("construct_pure_python", subproc.pure_python_variant("checks.c10_keyenc", "o_construct"), strategy=s_construct,
+             budget=(160, 6000),
+             rule="the construct_generated cases in the same PYCOIN_NATIVE=none child"),
 ]
 
 # thorough tier: coverage-guided campaigns (runs per worker, 4 workers each)
